@@ -50,6 +50,14 @@ def run(ctx):
     T[n] = fold.need(lambda n=n: fd.module_const(mi, n), n)
   mods = fd.module_const(mi, '_DEGREE_MODIFICATIONS')
   T['_DEGREE_MODIFICATIONS'] = mods
+  from sa import pitfalls
+  pitfalls.apply(ctx, 'PITFALL', [fi for q, fi in sorted(mi.all_functions.items()) if '.' not in q], ['falsy-zero'], {
+      'falsy-zero': 'pitch class 0 (C, B#, Dbb) is a root / bass like any other: a written bass of pitch class 0 is dropped, so the name no longer carries the lowest supplied pitch as bass'})
+  for q in ('chord_symbol_root', 'chord_symbol_bass'):
+    fi_ = ctx.func('chord_symbols_lib:' + q)
+    v_, why_ = pitfalls.mod_reduced(fi_)
+    ctx.ob('PITCHCLASS/reduced', fi_, fi_.node, v_ == pitfalls.OK, why_, construct='%s returns a pitch class in 0..11' % q, definite=(v_ == pitfalls.BAD),
+           unknown=why_ if v_ == pitfalls.UNKNOWN else None)
   grouping_sorted(ctx, mi)
   degree_identity(ctx)
   units(ctx, mi)
